@@ -271,6 +271,17 @@ func main() {
 			mu.Lock()
 			defer mu.Unlock()
 			if rerr != nil {
+				// the code under test recursed until the Go runtime killed the worker: a verdict
+				// about that code (unbounded recursion), not a harness failure
+				if fn := stackOverflowIn(string(ob)); fn != "" {
+					v := violation{Property: prop, Clause: "stack_overflow", Sig: prop + ":stack_overflow:" + fn, Scenario: u.Name,
+						Detail: "an execution of this scenario recursed without bound (" + fn + ") until the goroutine stack limit was exceeded and the process died",
+						Trace:  []string{tail(string(ob), 1500)}}
+					results[i] = &unitResult{Unit: u.Name, Stats: map[string]any{"scenario": u.Name, "executions": 1.0, "exhaustive": false, "note": "worker died: stack overflow of the code under test"},
+						Violations: []violation{v}, SigCounts: map[string]int{v.Sig: 1}}
+					return
+				}
+				os.WriteFile(filepath.Join(filepath.Dir(work), "last-worker-crash.txt"), ob, 0o644)
 				harnessErrs = append(harnessErrs, fmt.Sprintf("unit %s: no result (%v): %s", u.Name, err, tail(string(ob), 2000)))
 				return
 			}
@@ -479,6 +490,27 @@ func keys(m map[string]bool) []string {
 	}
 	sort.Strings(out)
 	return out
+}
+
+// stackOverflowIn: the worker output is a Go "stack exceeds limit" crash whose repeating frames
+// are functions of the code under test; returns the first such function.
+func stackOverflowIn(out string) string {
+	if !strings.Contains(out, "goroutine stack exceeds") || !strings.Contains(out, "fatal error: stack overflow") {
+		return ""
+	}
+	const mod = "github.com/go-task/task/v3"
+	for _, l := range strings.Split(out, "\n") {
+		if strings.HasPrefix(l, mod) && !strings.HasPrefix(l, mod+"/zverif/") {
+			fn := strings.TrimPrefix(l, mod)
+			if i := strings.LastIndex(fn, "("); i > 0 {
+				fn = fn[:i]
+			}
+			if strings.Count(out, l[:strings.LastIndex(l, "(")]+"(") >= 8 {
+				return fn
+			}
+		}
+	}
+	return ""
 }
 
 func tail(s string, n int) string {
